@@ -136,7 +136,7 @@ reg("C15", "exploration",
     "the commitment recomputed from scratch; blocks whose output_root commits to another bitmap (5 variants, everything else right) must be refused.",
     "SKIP_POW delivery. Trusted base: hash primitive and BitmapChunk serialisation.")
 
-reg("C18", "fault_enumeration",
+reg("C18", "exploration",
     "nested-transaction reference map + unique-id snapshot history checker (all-or-none per batch, prefix consistency) + crash enumeration around Batch::commit",
     "Single-thread programs over 3 key spaces with nested batches to depth 3 and every commit/drop fate chain, compared op by op and after "
     "reopen with a stack-of-overlays model; multi-thread runs (writers, point readers, snapshot iterators, iterator holders sleeping across "
